@@ -14,6 +14,11 @@ for b in f['bodies']:
         n = b['arg_count']
         callees = sorted(set((blk['term'].get('func', {}).get('fn', {}) or {}).get('path', '') for blk in b['blocks'] if blk['term'] and blk['term']['k'] == 'call') - {''})
         sigs[b['path']] = {'args': [l['ty'] for l in b['locals'][1:1 + n]], 'ret': b['locals'][0]['ty'], 'callees': callees}
+adts = {}
+for a in f['adts']:
+    if a.get('kind') == 'Struct' and len(a['variants']) == 1:
+        adts[a['path']] = [[fl['name'], fl['ty']] for fl in a['variants'][0]['fields']]
+json.dump(adts, open(os.path.join(HERE, 'analysis', 'known_structs.json'), 'w'), indent=0, sort_keys=True)
 open(os.path.join(HERE, 'analysis', 'known_functions.txt'), 'w').write('\n'.join(paths) + '\n')
 json.dump(sigs, open(os.path.join(HERE, 'analysis', 'known_signatures.json'), 'w'), indent=0, sort_keys=True)
 print('%d bodies, %d function signatures' % (len(paths), len(sigs)))
